@@ -10,7 +10,7 @@ Open Scope N_scope.
 Definition perm_order (order : korder) : Prop := forall l, Permutation (order l) l.
 Definition perm_orders (o : orders) : Prop :=
   perm_order (o_globals o) /\ perm_order (o_children o) /\ perm_order (o_ph o) /\
-  perm_order (o_imports o) /\ perm_order (o_jsmap o).
+  perm_order (o_imports o).
 
 (* ---- the same compile result, whatever the insertion order of the files ---- *)
 Record same_result (c c' : compiled) : Prop := {
